@@ -1,5 +1,5 @@
 ENTRY = dict(
-    runner="C13", pkg="./cmd/c13", corr=["Corr.C13Corr"], n=dict(quick=700, thorough=1200), runner_timeout=900,
+    runner="C13", pkg="./cmd/c13", corr=["Corr.C13Corr"], n=dict(quick=530, thorough=1010), runner_timeout=900,
     rule="every predefined parrot plus one custom spec (TLSVersMax 1.2 under a supported_versions list {1.3,1.2}) over loopback TCP "
          "against scripted servers: honest Go servers with MaxVersion 1.0/1.1/1.2/1.3; legacy servers negotiating from "
          "legacy_version only (supported_versions ignored) with MaxVersion 1.0/1.1/1.2; servers forcing 1.0/1.1/1.2 with the RFC 8446 "
@@ -7,7 +7,7 @@ ENTRY = dict(
          "fabricated when the hello did not offer it); TLS 1.3 named in the legacy version field; supported_versions in the ServerHello "
          "naming 0x0305, the hello's own GREASE version, or 1.0/1.1/1.2. One instance case per parrot carries (Config Min/Max as written by "
          "SetTLSVers from the spec's TLSVersMin/Max, hello.supportedVersions, the wire's supported_versions and legacy_version). Quick: "
-         "honest, legacy and forced-sentinel scenarios for every parrot, the rest rotates with the seed; thorough: full product. "
+         "legacy servers (1.0/1.1/1.2), honest 1.2/1.3 servers and the forced-1.2 sentinel for every parrot, the custom spec against every scenario, the rest rotates with the seed; thorough: full product. "
          "Distinct by (scenario, parrot); non-trivial when the handshake completed, a sentinel was present, or the server acted at an "
          "unadvertised version.",
     trusted_base=["verif_server.go scripted server and verif_c12.go view accessors", "harness/hs ClientHello wire parser",
